@@ -162,6 +162,10 @@ def _mk(nn, nd):
         return nn.ReLU()
     if k == 'relu6':
         return nn.ReLU6()
+    if k == 'prelu_c':              # per-channel PReLU: a parameter of static width (PIT refuses it at construction)
+        return nn.PReLU(num_parameters=nd['c'])
+    if k == 'leakyrelu':
+        return nn.LeakyReLU(0.1)
     if k == 'dropout':
         return nn.Dropout(0.3)
     if k == 'identity':
@@ -389,7 +393,7 @@ def shrink_candidates(spec):
 def feeds_through_propagating(spec, i):
     """the index of the node whose features node i carries (walk back through single-input propagating ops)"""
     nodes = spec['nodes']
-    while nodes[i]['k'] in ('pad1d', 'bn1d', 'bn2d', 'relu', 'relu6', 'relu_f', 'dropout', 'identity', 'avgpool1d', 'maxpool1d', 'avgpool2d', 'maxpool2d', 'gap1d', 'gap2d'):
+    while nodes[i]['k'] in ('pad1d', 'bn1d', 'bn2d', 'relu', 'relu6', 'relu_f', 'prelu_c', 'leakyrelu', 'dropout', 'identity', 'avgpool1d', 'maxpool1d', 'avgpool2d', 'maxpool2d', 'gap1d', 'gap2d'):
         i = nodes[i]['src']
     return i
 
@@ -447,4 +451,22 @@ def add_output_head(spec, rng):
         nodes.append({'k': rng.choice(['relu', 'relu_f', 'relu6']), 'src': len(nodes) - 1})
     spec['out'] = list(spec['out']) + [len(nodes) - 1]
     spec['productions'] = list(spec.get('productions', [])) + ['second-output-head']
+    return spec
+
+
+def with_unsupported_activation(spec, rng):
+    """replace one ReLU module that follows a searchable layer by an activation PIT does not list as supported
+    (per-channel PReLU / LeakyReLU): PIT is expected to refuse such a model when it is built"""
+    spec = copy.deepcopy(spec)
+    nodes = spec['nodes']
+    sh = shapes(spec)
+    cands = [i for i, nd in enumerate(nodes) if nd['k'] == 'relu' and i not in spec['out']]
+    if not cands:
+        return spec
+    i = rng.choice(cands)
+    if rng.random() < 0.7:
+        nodes[i] = {'k': 'prelu_c', 'src': nodes[i]['src'], 'c': sh[i][0]}
+    else:
+        nodes[i] = {'k': 'leakyrelu', 'src': nodes[i]['src']}
+    spec['productions'] = list(spec.get('productions', [])) + ['unsupported-activation']
     return spec
